@@ -55,18 +55,18 @@ func runAggVerify(raw json.RawMessage, seed int64) (res Result) {
 		}
 	}()
 	w := NewWorld(seed)
-	if w.Rng.Intn(3) == 0 { // (not seed%3: the case index and the seed are correlated)
-		// distinct formal messages that share their BYTES and differ only by their per-index hasher (domain tag)
-		m1 := w.Msg("m1")
-		for _, name := range []string{"m2", "m3"} {
-			w.msgs[name] = MsgDef{Tag: m1.Tag + name, Data: m1.Data}
-		}
-	}
 	// the hasher class of the run: the KMAC expander, or (one run in five) 128-byte hashers whose outputs for different messages
 	// share their whole first half (the first field element of hash_to_field) and differ only in the second
 	hcls := "kmac"
 	if w.Rng.Intn(5) == 0 {
 		hcls = "prefix128"
+	}
+	if hcls == "kmac" && w.Rng.Intn(3) == 0 { // (not seed%3: the case index and the seed are correlated)
+		// distinct formal messages that share their BYTES and differ only by their per-index hasher (domain tag)
+		m1 := w.Msg("m1")
+		for _, name := range []string{"m2", "m3"} {
+			w.msgs[name] = MsgDef{Tag: m1.Tag + name, Data: m1.Data}
+		}
 	}
 	n := len(c.Inp)
 	pks := make([]crypto.PublicKey, n)
